@@ -365,7 +365,11 @@ func (m *MdnsManager) QRCodeText() string {
 		optionals += m.safeQRCodeKeyValue("CAT", m.deviceCategoriesString(m.deviceCategories))
 	}
 
-	qrcode := fmt.Sprintf("SHIP;SKI:%s;ID:%s;%sENDSHIP;", m.ski, m.identifier, optionals)
+	// the mandatory values must not contain the field separator either
+	ski := strings.ReplaceAll(m.ski, ";", "")
+	identifier := strings.ReplaceAll(m.identifier, ";", "")
+
+	qrcode := fmt.Sprintf("SHIP;SKI:%s;ID:%s;%sENDSHIP;", ski, identifier, optionals)
 
 	return qrcode
 }
